@@ -56,6 +56,8 @@ pub fn acc_event(bytes: &[u8], path: &[PE]) -> J {
     res.insert("olv_from_lv".into(), guard(|| match sonic_rs::get(bytes, &ptr) { Ok(lv) => { let o = OwnedLazyValue::from(lv); acc(&o, sonic_rs::to_string(&o).ok()) }, Err(_) => absent() }));
     // borrowed -> owned after the borrowed value (and a clone sharing its cache) has been read: still the raw text
     res.insert("olv_from_lv_read".into(), guard(|| match sonic_rs::get(bytes, &ptr) { Ok(lv) => { let c = lv.clone(); let _ = lv.as_str().map(|s| s.len()); let _ = c.as_str().map(|s| s.len()); let o = OwnedLazyValue::from(lv); drop(c); acc(&o, sonic_rs::to_string(&o).ok()) }, Err(_) => absent() }));
+    // an owned lazy value made by serialising a value (to_lazyvalue): its text is the canonical serialisation, not the source span
+    res.insert("olv_to_lazyvalue".into(), guard(|| match sonic_rs::from_slice::<sonic_rs::Value>(bytes) { Ok(v) => match sonic_rs::to_lazyvalue(&v) { Ok(o) => match o.pointer(&ptr) { Some(x) => acc(x, sonic_rs::to_string(x).ok()), None => absent() }, Err(_) => absent() }, Err(_) => absent() }));
     res.insert("olv_clone".into(), guard(|| match sonic_rs::from_slice::<OwnedLazyValue>(bytes) { Ok(v) => match v.pointer(&ptr) { Some(x) => { let _ = x.as_str(); let _ = x.get(0usize); let c = x.clone(); acc(&c, sonic_rs::to_string(&c).ok()) }, None => absent() }, Err(_) => absent() }));
     // container views: len through as_array / as_object of a still-raw value
     res.insert("olv_container_len".into(), guard(|| match sonic_rs::from_slice::<OwnedLazyValue>(bytes) { Ok(v) => match v.pointer(&ptr) {
